@@ -17,13 +17,38 @@ THEOREMS = ["C12_identity", "C12_equal", "C12_children", "C12_wf", "C12_source",
 
 KEYS = ["a", "b", "c", "d", "A"]
 QKEYS = ["q:t", "q:u", "x:n", "x:m"]
-# classes: 0 Property, 1 SubmodelElementCollection, 2 MultiLanguageProperty, 9 Submodel (root),
+# classes: 0 Property, 1 SubmodelElementCollection, 2 MultiLanguageProperty, 5 RelationshipElement,
+# 6 AnnotatedRelationshipElement (children = annotations), 7 Range, 9 Submodel (root),
 # oracle-only: 3 SubmodelElementList(Property/Int), 4 Operation (kids carry "slot")
 
 
 def _m():
     from basyx.aas import model
     return model
+
+
+def prop_values():
+    """payload token of a Property -> (value_type, value).  Tokens {0,1,9}, {3,4}, {5,6}, {7,8} are
+    pairwise ==-equal in Python but differ in the canonical form (XSD type, exponent, zone offset)."""
+    import datetime
+    import decimal
+    dt = _m().datatypes
+    tz = datetime.timezone
+    return [(dt.Int, dt.Int(5)), (dt.Long, dt.Long(5)), (dt.Int, dt.Int(6)),
+            (dt.Decimal, decimal.Decimal("1.0")), (dt.Decimal, decimal.Decimal("1.00")),
+            (dt.Boolean, True), (dt.Int, dt.Int(1)),
+            (dt.DateTime, datetime.datetime(2020, 1, 1, 12, 0, tzinfo=tz.utc)),
+            (dt.DateTime, datetime.datetime(2020, 1, 1, 13, 0, tzinfo=tz(datetime.timedelta(hours=1)))),
+            (dt.Double, 5.0)]
+
+
+TWINS = {0: [1, 9], 1: [0, 9], 9: [0, 1], 3: [4], 4: [3], 5: [6], 6: [5], 7: [8], 8: [7]}
+NPROP = 10
+
+
+def canon_value(value_type, value):
+    """canonical form with type tags: the XSD type, the Python class and the literal"""
+    return (getattr(value_type, "__name__", repr(value_type)), type(value).__name__, repr(value))
 
 
 def src_str(n):
@@ -53,7 +78,17 @@ def build(spec, objs, root=False):
     if cls == 9:
         o = model.Submodel("urn:c12:sm", kids, id_short=key, description=cat, qualifier=quals, extension=exts)
     elif cls == 0:
-        o = model.Property(key, model.datatypes.Int, spec["pay"], qualifier=quals, extension=exts, semantic_id=sem)
+        vt, val = prop_values()[spec["pay"]]
+        o = model.Property(key, vt, val, qualifier=quals, extension=exts, semantic_id=sem)
+    elif cls in (5, 6):
+        ref = model.ModelReference((model.Key(model.KeyTypes.SUBMODEL, "urn:c12:sm"),), model.Submodel)
+        if cls == 5:
+            o = model.RelationshipElement(key, ref, ref, description=cat, qualifier=quals, extension=exts)
+        else:
+            o = model.AnnotatedRelationshipElement(key, ref, ref, annotation=kids, description=cat,
+                                                   qualifier=quals, extension=exts)
+    elif cls == 7:
+        o = model.Range(key, model.datatypes.Int, description=cat, qualifier=quals, extension=exts)
     elif cls == 1:
         o = model.SubmodelElementCollection(key, kids, description=cat, qualifier=quals, extension=exts)
     elif cls == 2:
@@ -77,7 +112,8 @@ CLS_OF = None
 def cls_code(o):
     model = _m()
     for c, t in ((9, model.Submodel), (0, model.Property), (1, model.SubmodelElementCollection),
-                 (2, model.MultiLanguageProperty), (3, model.SubmodelElementList), (4, model.Operation)):
+                 (2, model.MultiLanguageProperty), (3, model.SubmodelElementList), (4, model.Operation),
+                 (5, model.RelationshipElement), (6, model.AnnotatedRelationshipElement), (7, model.Range)):
         if type(o) is t:
             return c
     return -1
@@ -91,6 +127,8 @@ def kid_sets(o):
         r = [o.value]
     elif isinstance(o, model.Operation):
         r = [o.input_variable, o.output_variable, o.in_output_variable]
+    elif isinstance(o, model.RelationshipElement):
+        r = [getattr(o, "annotation", None)]     # a mis-typed live node may carry stale annotations
     else:
         r = []
     return [S for S in r if isinstance(S, model.NamespaceSet)]
@@ -99,7 +137,11 @@ def kid_sets(o):
 def payload(o):
     model = _m()
     if isinstance(o, model.Property):
-        return o.value if isinstance(o.value, int) else -1
+        got = canon_value(o.value_type, o.value)
+        for i, (vt, val) in enumerate(prop_values()):
+            if canon_value(vt, val) == got:
+                return i
+        return -1
     try:
         c = o.description["en"]
     except Exception:
@@ -151,7 +193,7 @@ def check_equal(o, spec, path, bad, root=True, in_list=False):
     if got_sem != want_sem:
         bad.append(("attr", f"{path}: semantic_id {got_sem} != {want_sem}"))
     if payload(o) != spec["pay"]:
-        bad.append(("attr", f"{path}: value/description {payload(o)} != {spec['pay']}"))
+        bad.append(("attr", f"{path}: value (canonical form incl. XSD type) / description: token {payload(o)} != {spec['pay']}"))
     if not root and src_code(o) != spec["src"]:
         bad.append(("child-source", f"{path}: source of an embedded object not taken from the copy"))
     have = {("q:" + q.type): q.value for q in getattr(o, "qualifier", [])}
@@ -299,29 +341,39 @@ class Gen:
     def node(self, depth, key, cls=None, slot=None):
         r = self.rng
         if cls is None:
-            choices = [0, 0, 1, 1, 2] + ([3, 4] if self.extra else [])
-            cls = r.choice(choices) if depth < 3 else r.choice([0, 2])
-        n = {"oid": self.oid(), "cls": cls, "key": key, "pay": r.randrange(4), "src": r.choice([0, 0, 1, 2]),
-             "quals": self.quals(), "kids": []}
+            choices = [0, 0, 0, 1, 1, 2, 5, 6, 7] + ([3, 4] if self.extra else [])
+            cls = r.choice(choices) if depth < 3 else r.choice([0, 0, 2, 5, 7])
+        n = {"oid": self.oid(), "cls": cls, "key": key, "pay": r.randrange(NPROP if cls == 0 else 4),
+             "src": r.choice([0, 0, 1, 2]), "quals": self.quals(), "kids": []}
         if slot is not None:
             n["slot"] = slot
         if cls in (1, 9, 4):
             keys = [k for k in KEYS if r.random() < (0.55 if depth < 2 else 0.35)]
             for k in keys:
                 n["kids"].append(self.node(depth + 1, k, slot=r.randrange(3) if cls == 4 else None))
+        elif cls == 6:
+            for k in [k for k in KEYS if r.random() < 0.4]:
+                n["kids"].append(self.node(depth + 1, k, cls=r.choice([0, 0, 2, 7])))   # annotations: DataElements
         elif cls == 3:
             sem = r.choice([None, 0, 1])
             for _ in range(r.choice([0, 1, 2, 3])):
                 k = self.node(depth + 1, None, cls=0)
                 k["sem"] = sem
+                k["pay"] = r.choice([0, 2, 6])      # the list is typed xs:int
                 n["kids"].append(k)
         return n
 
     def edit(self, n, depth=0):
         """an arbitrary edit of a tree: returns the spec of the 'freshly loaded copy'"""
         r = self.rng
-        m = {"oid": self.oid(), "cls": n["cls"], "key": n["key"],
-             "pay": n["pay"] if r.random() < 0.6 else r.randrange(4),
+        x = r.random()
+        if x < 0.55:
+            pay = n["pay"]
+        elif n["cls"] == 0 and x < 0.8 and n["pay"] in TWINS:
+            pay = r.choice(TWINS[n["pay"]])          # ==-equal, canonically different
+        else:
+            pay = r.randrange(NPROP if n["cls"] == 0 else 4)
+        m = {"oid": self.oid(), "cls": n["cls"], "key": n["key"], "pay": pay,
              "src": n["src"] if r.random() < 0.6 else r.choice([0, 1, 2]), "quals": [], "kids": []}
         if "slot" in n:
             m["slot"] = n["slot"] if (r.random() < 0.8 or not self.extra) else r.randrange(3)
@@ -344,14 +396,21 @@ class Gen:
             sem = r.choice([None, 0, 1]) if r.random() < 0.5 else (n["kids"][0].get("sem") if n["kids"] else None)
             for k in m["kids"]:
                 k["sem"] = sem
+                if k["pay"] not in (0, 2, 6):
+                    k["pay"] = r.choice([0, 2, 6])
             return m
         for k in n["kids"]:
             x = r.random()
             if x < 0.15:
                 continue                                   # removed
             if x < 0.25 and depth < 2:                     # retyped: same idShort, other class
-                m["kids"].append(self.node(depth + 1, k["key"], cls=r.choice([c for c in (0, 1, 2) if c != k["cls"]]),
-                                           slot=k.get("slot")))
+                pool = (0, 2, 7) if n["cls"] == 6 else (0, 1, 2, 5, 6, 7)
+                near = {6: 5, 5: 6, 0: 7, 7: 0}.get(k["cls"])    # along the class hierarchy / sibling classes
+                if near in pool and r.random() < 0.6:
+                    ncls = near
+                else:
+                    ncls = r.choice([c for c in pool if c != k["cls"]])
+                m["kids"].append(self.node(depth + 1, k["key"], cls=ncls, slot=k.get("slot")))
                 continue
             if x < 0.33:                                   # renamed
                 free = [kk for kk in KEYS if kk not in [y["key"] for y in n["kids"]] + [y["key"] for y in m["kids"]]]
@@ -361,10 +420,11 @@ class Gen:
                     m["kids"].append(e)
                     continue
             m["kids"].append(self.edit(k, depth + 1))
-        if n["cls"] in (1, 9, 4):
+        if n["cls"] in (1, 9, 4, 6):
             for kk in KEYS:
                 if kk not in [y["key"] for y in m["kids"]] and r.random() < 0.12:
-                    m["kids"].append(self.node(depth + 1, kk, slot=r.randrange(3) if n["cls"] == 4 else None))
+                    m["kids"].append(self.node(depth + 1, kk, slot=r.randrange(3) if n["cls"] == 4 else None,
+                                               cls=r.choice([0, 2, 7]) if n["cls"] == 6 else None))
         if r.random() < 0.3:
             r.shuffle(m["kids"])
         return m
